@@ -634,8 +634,23 @@ def check_nonschema(lang, mod, name, o, label, ops, opy, spec, params, rep, R, w
     if lang == 'ja' and label == 'SSEQ':
         # the list by its name, or (when the walker resolved the module constant) by its entries
         tables = {a[3] for a, pol_ in atoms if pol_ and a[0] == 'cmp' and a[1] == 'in' and a[2] in (N(X), N(Y))}
-        is_roots = lambda t_: t_ == N('_possible_root_categories') or (
-            t_[0] in ('list', 'tuple') and t_[1] and all(e_[0] == 'call' and e_[1] == A(N('Category'), 'parse') for e_ in t_[1]))
+        def is_roots(t_):
+            # the list by name / by its entries, or a set made of exactly that list (frozenset(_possible_root_categories),
+            # possibly bound to a module-level name of its own)
+            if t_ == N('_possible_root_categories') or (
+                    t_[0] in ('list', 'tuple') and t_[1] and all(e_[0] == 'call' and e_[1] == A(N('Category'), 'parse') for e_ in t_[1])):
+                return True
+            if t_[0] == 'call' and t_[1] in (N('frozenset'), N('set'), N('tuple'), N('list')) and len(t_[2]) == 1 and not t_[3]:
+                return is_roots(t_[2][0])
+            if t_[0] == 'name':
+                try:
+                    v_ = mod.assign(t_[1], required=False)
+                except Exception:
+                    v_ = None
+                if isinstance(v_, ast.Call) and isinstance(v_.func, ast.Name) and v_.func.id in ('frozenset', 'set', 'tuple', 'list') and len(v_.args) == 1 \
+                        and isinstance(v_.args[0], ast.Name) and v_.args[0].id == '_possible_root_categories' and not v_.keywords:
+                    return True
+            return False
         ok = len(tables) == 1 and is_roots(next(iter(tables))) and \
             {a[2] for a, pol_ in atoms if pol_ and a[0] == 'cmp' and a[1] == 'in' and a[3] in tables} >= {N(X), N(Y)} and got == ('in', Y)
         rep.check(ok, R['nonschema'], w, key0 + ':sseq-guard', '%s: sentence sequencing joins two root categories and returns the right one' % name,
